@@ -101,7 +101,7 @@ func buildTree(r *mc.Run) *tree {
 		add("R3", m3.WithSeal(h)) // wrong state root
 		t.invalid["R3"] = "wrong state root"
 		h = m3.Header()
-		h.Extra = []byte{badSealMark}
+		h.Extra = []byte{chainx.BadSealMark}
 		add("S3", m3.WithSeal(h)) // invalid seal
 		t.invalid["S3"] = "invalid seal"
 		f3 := t.blocks["F3"]
@@ -152,7 +152,7 @@ type node struct {
 }
 
 func open(db *mc.CrashDB) (*node, error) {
-	eng := newStub()
+	eng := chainx.NewStubUcon()
 	mux := new(event.TypeMux)
 	bc, err := core.NewBlockChain(db, eng, mux, params.ArchiveNode, local.FakeDetailDB())
 	if err != nil {
